@@ -26,7 +26,7 @@ RULE = ("values: scalars (24), arrays of <= 2 and objects of <= 2 members (keys 
         "substitution by one of 12 characters of 46 base documents. Non-trivial: the value contains an escape, a non-ASCII "
         "character, an exponent/fraction, nesting, or the text is invalid.")
 ASSUMPTIONS = ["Python json.loads (strict, NaN/Infinity rejected) decides validity; numbers are compared by exact value "
-               "(an integer-valued result may be an integer or a float)", "unpaired surrogate escapes are not compared",
+               "(an integer-valued result may be an integer or a float)", "an unpaired surrogate escape must be rejected or replaced by U+FFFD",
                "driver transport"]
 MIN_OUTCOMES = 5
 
@@ -124,6 +124,43 @@ def number_texts():
     return out
 
 
+HIGHS = ["D800", "D801", "DBFE", "DBFF"]
+LOWS = ["DC00", "DC01", "DFFE", "DFFF"]
+
+
+def _cases(h):
+    mixed = "".join(c.lower() if i % 2 else c for i, c in enumerate(h))
+    return [h, h.lower(), mixed]
+
+
+def surrogate_texts():
+    """boundary surrogate pairs (valid), the same code points written literally, and the invalid
+    neighbours (a high not followed by a low, a low first, lone halves)"""
+    out = []
+    for h in HIGHS:
+        for lo in LOWS:
+            cp = 0x10000 + ((int(h, 16) - 0xD800) << 10) + (int(lo, 16) - 0xDC00)
+            for hv, lv in zip(_cases(h), _cases(lo)):
+                esc = "\\u%s\\u%s" % (hv, lv)
+                out += ['"%s"' % esc, '"x%sy"' % esc, '["%s",1]' % esc, '{"%s":"%s"}' % (esc, esc)]
+            out += ['"%s"' % chr(cp), '"a%sb"' % chr(cp), '{"%s":[ "%s" ]}' % (chr(cp), chr(cp)), '"%s\\u%s\\u%s"' % (chr(cp), h, lo)]
+    out.append('"\\uD800\\uDC00\\uDBFF\\uDFFF"')
+    out.append('"\\udbff\\udfff\\ud800\\udc00"')
+    for h in HIGHS:
+        for bad in ("DBFF", "E000", "D800", "0041", "DBFE", "FFFF"):
+            out.append('"\\u%s\\u%s"' % (h, bad))
+            out.append('"\\u%s\\u%s"' % (h.lower(), bad.lower()))
+        out += ['"\\u%s"' % h, '"\\u%sx"' % h, '"a\\u%s"' % h, '["\\u%s","\\uDC00"]' % h, '"\\u%s\\n\\uDC00"' % h, '"\\u%s\\uDC0"' % h]
+    for lo in LOWS:
+        out += ['"\\u%s"' % lo, '"\\u%s\\uD800"' % lo, '"a\\u%sb"' % lo, '"\\u%s\\u%s"' % (lo, lo), '"\\u%s"' % lo.lower()]
+    seen, res = set(), []
+    for t in out:
+        if t not in seen:
+            seen.add(t)
+            res.append(t)
+    return res
+
+
 BASE_DOCS = ["null", "true", "false", "0", "-1", "12", "1.5", "-0.0", "1e2", "1E-2", "10.25e+3", '""', '"a"', '"a b"', '"\\n"', '"\\""',
              '"\\\\"', '"\\u00e9"', '"\\ud83d\\ude00"', '"é"', "[]", "[1]", "[1,2]", '["a",null]', "[[]]", "[[1],[2]]", "{}",
              '{"a":1}', '{"a":1,"b":2}', '{"a":{"b":[]}}', '{"":""}', ' [ 1 , 2 ] ', '{ "a" : [ true , false ] }', "\n[\n]\n",
@@ -216,6 +253,16 @@ def has_lone_surrogate(v):
     return False
 
 
+def replace_lone(v):
+    if isinstance(v, str):
+        return "".join("\ufffd" if 0xD800 <= ord(c) <= 0xDFFF else c for c in v)
+    if isinstance(v, list):
+        return [replace_lone(x) for x in v]
+    if isinstance(v, tuple) and v[0] == "obj":
+        return ("obj", [(replace_lone(k), replace_lone(x)) for k, x in v[1]])
+    return v
+
+
 def term_matches(v, t, approx=False):
     """python value (with Num) against an observed json term"""
     if approx and isinstance(v, Num):
@@ -296,12 +343,12 @@ NSH = 24
 
 
 def shards(tier):
-    return [("values", i) for i in range(NSH)] + [("mutants", i) for i in range(8)] + [("numbers", i) for i in range(4)]
+    return [("values", i) for i in range(NSH)] + [("mutants", i) for i in range(8)] + [("numbers", i) for i in range(4)] + [("surrogates", i) for i in range(4)]
 
 
 def bound_text(tier):
-    return "%d value texts (depth <= %d, 2 whitespace forms) + %d number literals + %d one-character mutants / hand-written invalid texts" % (
-        len(value_texts(tier)), 3 if tier == "thorough" else 2, len(number_texts()), len(mutants()))
+    return "%d value texts (depth <= %d, 2 whitespace forms) + %d number literals + %d surrogate-boundary texts + %d one-character mutants / hand-written invalid texts" % (
+        len(value_texts(tier)), 3 if tier == "thorough" else 2, len(number_texts()), len(surrogate_texts()), len(mutants()))
 
 
 def setup(w, tier):
@@ -333,7 +380,13 @@ def judge(text, r):
     st = sol.get("St")
     err = isinstance(st, tuple) and st[0] == "error"
     if valid and has_lone_surrogate(v):
-        return [("parse", "unspecified:lone_surrogate", None, "not compared", None)]
+        # an unpaired surrogate is not a character: the text must be rejected, or at the very least the
+        # half must become U+FFFD — it may never be decoded to some other character silently
+        if not js:
+            return [("parse", "lone_surrogate:rejected", None, "rejected (or U+FFFD)", None)]
+        if all(term_matches(replace_lone(v), j) for j in js):
+            return [("parse", "lone_surrogate:replaced", None, "rejected (or U+FFFD)", None)]
+        return [("parse", "sol", "misdecodes_lone_surrogate", "rejected (or U+FFFD for the unpaired half)", "; ".join(show_term(j) for j in js))]
     if not valid:
         if js:
             return [("parse", "accepted", "accepts_invalid", "failure or error", show_term(js[0]))]
@@ -419,6 +472,9 @@ def run_shard(w, shard, tier):
     if shard[0] == "values":
         items = [(t, nontrivial(t, n)) for k, (t, n) in enumerate(value_texts(tier)) if k % NSH == shard[1]]
         run_texts(w, items, acc, "value")
+    elif shard[0] == "surrogates":
+        items = [(m, True) for k, m in enumerate(surrogate_texts()) if k % 4 == shard[1]]
+        run_texts(w, items, acc, "surrogate")
     elif shard[0] == "numbers":
         items = [(m, True) for k, m in enumerate(number_texts()) if k % 4 == shard[1]]
         run_texts(w, items, acc, "number")
